@@ -16,6 +16,7 @@ import (
 	"go/printer"
 	"go/token"
 	"go/types"
+	"math/big"
 	"sort"
 	"strings"
 )
@@ -43,6 +44,13 @@ type xUnit struct {
 	// Ignore: statements (by printed text) that are left out: lock handling (`r.RLock()`, `defer r.RUnlock()`): the
 	// translation is of the sequential body; that it runs atomically is the model's assumption.
 	Ignore []string
+	// Methods: pure methods without arguments of values of the subset (e.String()) that the code calls: each becomes a
+	// function parameter of the given Gallina type, applied to the translated receiver
+	Methods map[string]xOracle
+	// Fresh: variables of the function that a statement slice receives as parameters and appends to; the rule that
+	// makes append act on a value (only ever assigned zero / make / literal / append to itself) is checked over the
+	// whole function for them
+	Fresh []string
 	// Errs: calls (by printed callee) that yield a non-nil error whatever their arguments (errors.New, fmt.Errorf)
 	Errs map[string]bool
 	// state mode (optional, xlate_state.go): the receiver is abstracted to a state value threaded through the code
@@ -101,11 +109,16 @@ type xl struct {
 	namedRes   []*types.Var // named results (variables; a bare return yields them)
 	inLoop     bool         // inside the `for { }` of a fuel unit
 	loopState  string
+	freshDone  map[*types.Var]bool
+	fnBody     []ast.Stmt              // the whole function body (freshness of slice parameters)
+	inLambda   bool                    // inside the comparator of sort.Slice: a plain boolean function
+	sortVar    types.Object            // the slice being sorted
+	sortIdx    map[types.Object]string // the comparator's index parameters -> the names of the two elements
 }
 
 // identifiers the generated text uses itself; a Go variable of such a name gets a trailing underscore
 var xReserved = strings.Fields(`ctl Next Return Panic bindc go_call wrapU wrapS go_len go_nth go_in_range go_slice
- go_slice_ok go_bytes_eqb go_be_u16 go_be_u32 go_be_u64 go_emit_u8 go_emit_u16 go_emit_u32 go_emit_u64 go_emit_bytes go_range go_count go_map_get go_map_set go_make go_iter rd fuel inl inr go_atomic_cas32 go_atomic_add32 go_search go_search_ok Some None go_f32_to_f64
+ go_slice_ok go_bytes_eqb go_be_u16 go_be_u32 go_be_u64 go_emit_u8 go_emit_u16 go_emit_u32 go_emit_u64 go_emit_bytes go_range go_count go_map_get go_map_set go_make go_iter rd fuel inl inr go_atomic_cas32 go_atomic_add32 go_search go_search_ok Some None go_f32_to_f64 go_bytes_ltb go_sort_by go_count_down a__ b__
  andb orb negb implb true false tt nil cons list unit bool Z N nat fst snd pair Bool eqb
  fun let in if then else match with end as return forall exists fix cofix Type Prop Set struct where at using for IF
  Definition Fixpoint Record Lemma Theorem out st`)
@@ -498,6 +511,21 @@ func (x *xl) expr(e ast.Expr, g *xGuards) string {
 	if f, ok := x.stField(e); ok {
 		return "(" + f.Get + " rd)"
 	}
+	if x.sortVar != nil {
+		if ie, ok := e.(*ast.IndexExpr); ok { // v[i] / v[j] inside the comparator of sort.Slice(v, ..): the two elements
+			if vi, ok := ie.X.(*ast.Ident); ok && x.info.ObjectOf(vi) == x.sortVar {
+				if ii, ok := ie.Index.(*ast.Ident); ok {
+					if n, ok := x.sortIdx[x.info.ObjectOf(ii)]; ok {
+						return n
+					}
+				}
+				x.fail(e, "inside the comparator the sorted slice may only be used as v[i] and v[j]")
+			}
+		}
+		if id, ok := e.(*ast.Ident); ok && x.info.ObjectOf(id) == x.sortVar {
+			x.fail(e, "inside the comparator the sorted slice may only be used as v[i] and v[j]")
+		}
+	}
 	switch e := e.(type) {
 	case *ast.ParenExpr:
 		return x.expr(e.X, g)
@@ -636,6 +664,14 @@ func (x *xl) compare(e *ast.BinaryExpr, t types.Type, a, b string) string {
 		r = "(Bool.eqb " + a + " " + b + ")"
 	case xIsBytes(t) && xIsString(t) && (e.Op == token.EQL || e.Op == token.NEQ):
 		r = "(go_bytes_eqb " + a + " " + b + ")"
+	case xIsString(t) && e.Op == token.LSS: // byte-wise lexicographic order
+		return "(go_bytes_ltb " + a + " " + b + ")"
+	case xIsString(t) && e.Op == token.GTR:
+		return "(go_bytes_ltb " + b + " " + a + ")"
+	case xIsString(t) && e.Op == token.LEQ:
+		return "(negb (go_bytes_ltb " + b + " " + a + "))"
+	case xIsString(t) && e.Op == token.GEQ:
+		return "(negb (go_bytes_ltb " + a + " " + b + "))"
 	case xIsError(t) && (e.Op == token.EQL || e.Op == token.NEQ): // comparison with nil only
 		if !x.info.Types[e.Y].IsNil() && !x.info.Types[e.X].IsNil() {
 			x.fail(e, "errors can only be compared with nil")
@@ -695,6 +731,13 @@ func (x *xl) arith(e *ast.BinaryExpr, a, b string, g *xGuards) string {
 func (x *xl) call(e *ast.CallExpr, g *xGuards) string {
 	if x.unit.Errs[x.src(e.Fun)] { // an error value that is not nil; its text is not modelled
 		return "true"
+	}
+	if se, ok := e.Fun.(*ast.SelectorExpr); ok && len(e.Args) == 0 {
+		if m, ok := x.unit.Methods[se.Sel.Name]; ok { // a declared pure method: a function parameter
+			if _, isFn := x.info.ObjectOf(se.Sel).(*types.Func); isFn {
+				return "(" + m.Name + " " + x.expr(se.X, g) + ")"
+			}
+		}
 	}
 	if x.src(e.Fun) == "sort.Search" && len(e.Args) == 2 { // sort.Search(n, func(i int) bool { return P })
 		if fl, ok := e.Args[1].(*ast.FuncLit); ok && len(fl.Body.List) == 1 && len(fl.Type.Params.List) == 1 && len(fl.Type.Params.List[0].Names) == 1 {
@@ -880,16 +923,49 @@ func (x *xl) makeCall(e *ast.CallExpr, g *xGuards) string {
 // fresh: v is declared inside the translated statements and only ever holds values made there (zero value, make,
 // composite literal, append to itself), so no other slice shares its backing array and append acts on it as on a value
 func (x *xl) fresh(v *types.Var, at ast.Node) {
-	if !(x.lo <= v.Pos() && v.Pos() < x.hi) {
-		x.fail(at, "append to %s, which is not declared in the translated statements (it may share its array)", v.Name())
+	if x.freshDone[v] {
+		return
 	}
+	if x.freshDone == nil {
+		x.freshDone = map[*types.Var]bool{}
+	}
+	x.freshDone[v] = true
+	scope := x.body
+	if !(x.lo <= v.Pos() && v.Pos() < x.hi) {
+		listed := false
+		for _, n := range x.unit.Fresh {
+			listed = listed || n == v.Name()
+		}
+		if !listed || len(x.fnBody) == 0 || !(x.fnBody[0].Pos() <= v.Pos() && v.Pos() < x.fnBody[len(x.fnBody)-1].End()) {
+			x.fail(at, "append to %s, which is not declared in the translated statements (it may share its array)", v.Name())
+		}
+		scope = x.fnBody // a listed slice parameter: the rule is checked over the whole function
+	}
+	var assignAt ast.Node
 	ok := func(r ast.Expr) bool {
 		switch r := r.(type) {
 		case *ast.CompositeLit:
 			return true
 		case *ast.Ident:
-			_, isNil := x.info.ObjectOf(r).(*types.Nil)
-			return isNil
+			if _, isNil := x.info.ObjectOf(r).(*types.Nil); isNil {
+				return true
+			}
+			// v = w for another such variable w that is not used any more afterwards (within its scope)
+			w, isVar := x.info.ObjectOf(r).(*types.Var)
+			if !isVar || w.Parent() == nil || assignAt == nil {
+				return false
+			}
+			dead := true
+			for id, o := range x.info.Uses {
+				if o == types.Object(w) && id.Pos() > assignAt.End() && id.Pos() < w.Parent().End() {
+					dead = false
+				}
+			}
+			if !dead {
+				return false
+			}
+			x.fresh(w, at)
+			return true
 		case *ast.CallExpr:
 			if id, isId := r.Fun.(*ast.Ident); isId && len(r.Args) > 0 {
 				if a0, isId := r.Args[0].(*ast.Ident); id.Name == "append" && isId && x.info.ObjectOf(a0) == v {
@@ -900,10 +976,11 @@ func (x *xl) fresh(v *types.Var, at ast.Node) {
 		}
 		return false
 	}
-	for _, st := range x.body {
+	for _, st := range scope {
 		ast.Inspect(st, func(n ast.Node) bool {
 			switch n := n.(type) {
 			case *ast.AssignStmt:
+				assignAt = n
 				for i, l := range n.Lhs {
 					if id, isId := l.(*ast.Ident); isId && x.info.ObjectOf(id) == v && (len(n.Lhs) != len(n.Rhs) || !ok(n.Rhs[i])) {
 						x.fail(n, "%s is appended to but also assigned a value that may share its array", v.Name())
@@ -919,6 +996,40 @@ func (x *xl) fresh(v *types.Var, at ast.Node) {
 			return true
 		})
 	}
+}
+
+// sort.Slice(v, func(i, j int) bool { ... v[i] ... v[j] ... }) for a variable v: v is replaced by the sorted list.
+// The comparator is translated as a function of the two elements; None = one of its run-time checks fails.
+func (x *xl) sortSlice(s ast.Stmt, c *ast.CallExpr, rest func() string, d int) string {
+	vid, ok := c.Args[0].(*ast.Ident)
+	fl, ok2 := c.Args[1].(*ast.FuncLit)
+	if !ok || !ok2 || len(fl.Type.Params.List) == 0 {
+		x.fail(s, "sort.Slice is in the subset as sort.Slice(v, func(i, j int) bool { ... }) on a variable v")
+	}
+	var ps []*ast.Ident
+	for _, f := range fl.Type.Params.List {
+		ps = append(ps, f.Names...)
+	}
+	if len(ps) != 2 || x.inLambda {
+		x.fail(s, "the comparator of sort.Slice takes two indexes")
+	}
+	v := x.lvalue(vid)
+	x.fresh(v, s)
+	vn := x.varName(vid)
+	sl, isSlice := v.Type().Underlying().(*types.Slice)
+	if !isSlice {
+		x.fail(s, "sort.Slice of a %s", v.Type())
+	}
+	et := x.coqType(s, sl.Elem())
+	x.inLambda, x.sortVar = true, v
+	x.sortIdx = map[types.Object]string{x.info.ObjectOf(ps[0]): "a__", x.info.ObjectOf(ps[1]): "b__"}
+	saveN, saveT, saveLoop := x.nres, x.resTypes, x.inLoop
+	x.nres, x.resTypes, x.inLoop = 1, []types.Type{types.Typ[types.Bool]}, false
+	body := x.block(fl.Body.List, "Panic", d+2)
+	x.nres, x.resTypes, x.inLoop = saveN, saveT, saveLoop
+	x.inLambda, x.sortVar, x.sortIdx = false, nil, nil
+	less := "(fun (a__ b__ : " + et + ") => match (" + body + " : ctl unit bool) with Return r__ => Some r__ | _ => None end)"
+	return "match go_sort_by " + less + " " + vn + " with" + xInd(d) + "| Some " + vn + " =>" + xInd(d) + rest() + xInd(d) + "| None => Panic" + xInd(d) + "end"
 }
 
 // ---------- statements ----------
@@ -945,6 +1056,16 @@ func (x *xl) assigned(ss []ast.Stmt) []*types.Var {
 				}
 			case *ast.IncDecStmt:
 				mark(n.X)
+			case *ast.CallExpr: // sort.Slice(v, less) sets v; the comparators of sort.Slice / sort.Search assign nothing
+				switch x.src(n.Fun) {
+				case "sort.Slice":
+					if len(n.Args) == 2 {
+						mark(n.Args[0])
+					}
+					return false
+				case "sort.Search":
+					return false
+				}
 			case *ast.FuncLit:
 				x.fail(n, "function literals are outside the subset")
 			}
@@ -1025,6 +1146,9 @@ func (x *xl) block(ss []ast.Stmt, k string, d int) string {
 }
 
 func (x *xl) ret(vals []string) string {
+	if x.inLambda { // the comparator of sort.Slice
+		return "Return " + vals[0]
+	}
 	for _, f := range x.recvOut { // the receiver fields the code assigns, as they are at this return
 		vals = append(vals, x.names[f])
 	}
@@ -1165,6 +1289,9 @@ func (x *xl) stmt(s ast.Stmt, rest func() string, d int) string {
 		}
 		if inv := x.stCall(s.X, &g); inv != nil {
 			return x.stBind(s, inv, nil, false, g, rest, d)
+		}
+		if c, ok := s.X.(*ast.CallExpr); ok && x.src(c.Fun) == "sort.Slice" && len(c.Args) == 2 {
+			return x.sortSlice(s, c, rest, d)
 		}
 		if c, ok := s.X.(*ast.CallExpr); ok { // panic(...)
 			if id, ok := c.Fun.(*ast.Ident); ok && id.Name == "panic" {
@@ -1448,7 +1575,8 @@ func (x *xl) forStmt(s *ast.ForStmt, rest func() string, d int) string {
 	iv := x.lvalue(init.Lhs[0])
 	cond, ok := s.Cond.(*ast.BinaryExpr)
 	post, ok2 := s.Post.(*ast.IncDecStmt)
-	if iv == nil || !ok || !ok2 || cond.Op != token.LSS || post.Tok != token.INC {
+	down := ok && ok2 && cond.Op == token.GEQ && post.Tok == token.DEC // for i := a; i >= n; i-- : i = a, a-1, .., n
+	if iv == nil || !ok || !ok2 || !(down || (cond.Op == token.LSS && post.Tok == token.INC)) {
 		bad()
 	}
 	if ci, ok := cond.X.(*ast.Ident); !ok || x.info.ObjectOf(ci) != iv {
@@ -1493,6 +1621,16 @@ func (x *xl) forStmt(s *ast.ForStmt, rest func() string, d int) string {
 	term, _, bind := x.state(s, vs)
 	x.loops++
 	defer func() { x.loops-- }()
-	return xGuarded(g, "bindc (go_count "+a+" "+n+" (fun ("+in+" : Z) => "+bind+xInd(d+1)+
+	comb := "go_count"
+	if down { // i-- at the least value of the type would wrap and the loop never end: the bound must be above it
+		comb = "go_count_down"
+		w, signed, _ := xIntType(iv.Type())
+		if signed {
+			g = append(g, "((-"+new(big.Int).Lsh(big.NewInt(1), uint(w-1)).String()+") <? "+n+")")
+		} else {
+			g = append(g, "(0 <? "+n+")")
+		}
+	}
+	return xGuarded(g, "bindc ("+comb+" "+a+" "+n+" (fun ("+in+" : Z) => "+bind+xInd(d+1)+
 		x.block(s.Body.List, "Next "+term, d+1)+") "+term+")"+xInd(d)+"("+bind+xInd(d)+rest()+")")
 }
